@@ -96,6 +96,9 @@ def configs(tier):
                 for mode in modes:
                     out.append(dict(entry='Gillespie_simple_contagion', spec=spec, graph=g, directed=directed, ic=ic, mode=mode, full=False,
                                     max_expo=E, truncate=True, wstub='abstract', tmax='inf', tags=[spec, g, mode]))
+                    if mode == 'rate_function' and g in ('P3', 'K2', 'D:3:01,12'):
+                        out.append(dict(entry='Gillespie_simple_contagion', spec=spec, graph=g, directed=directed, ic=ic, mode=mode, full=False, kwargs=True,
+                                        max_expo=E, truncate=True, wstub='abstract', tmax='inf', tags=[spec, g, mode, 'kwargs']))
                     if mode == 'plain' and g in ('P3', 'D:3:01,12') and spec in ('SIS', 'SIR', 'SEIR'):
                         # the documentation allows the transition graphs to mention only the statuses that have such a transition
                         out.append(dict(entry='Gillespie_simple_contagion', spec=spec, graph=g, directed=directed, ic=ic, mode=mode, full=False, minimal_spec=True,
@@ -150,6 +153,7 @@ def build(cfg):
                 r.ew[(v, u)] = w if mode == 'weight_label' else eng.real('w_%s_%s' % (v, u), lo=0, lo_strict=True)
             if mode == 'weight_label':
                 r.G.edges[u, v]['ewl'] = w
+    r.bad_kw = eng.real('rate_with_foreign_kwargs', lo=0, lo_strict=True) if cfg.get('kwargs') else None
     H = nx.DiGraph()
     if not cfg.get('minimal_spec'):
         H.add_nodes_from(statuses)
@@ -159,14 +163,21 @@ def build(cfg):
         if mode == 'weight_label':
             kw['weight_label'] = 'nwl'
         elif mode == 'rate_function':
-            kw['rate_function'] = (lambda G, node: r.nw[node])
+            if cfg.get('kwargs'):
+                # spont_kwargs / nbr_kwargs are two different dictionaries: each rate function checks it received its own
+                kw['rate_function'] = (lambda G, node, which=None: r.nw[node] if which == 'spont' else r.bad_kw)
+            else:
+                kw['rate_function'] = (lambda G, node: r.nw[node])
         H.add_edge(A, B, **kw)
     for (P, Q, nm) in induced:
         kw = {'rate': rates[nm]}
         if mode == 'weight_label':
             kw['weight_label'] = 'ewl'
         elif mode == 'rate_function':
-            kw['rate_function'] = (lambda G, source, target: r.ew[(source, target)])
+            if cfg.get('kwargs'):
+                kw['rate_function'] = (lambda G, source, target, which=None: r.ew[(source, target)] if which == 'nbr' else r.bad_kw)
+            else:
+                kw['rate_function'] = (lambda G, source, target: r.ew[(source, target)])
         J.add_edge(P, Q, **kw)
     r.H, r.J = H, J
     r.IC = {n: cfg['ic'][i] for i, n in enumerate(r.nodes)}
@@ -194,7 +205,10 @@ def chain_of(cfg, G, rates, nw, ew):
 
 def call(h, r, full):
     f = r.EoN.Gillespie_simple_contagion
-    return h.call_must_succeed('no-exception', f, r.G, r.H, r.J, r.IC, tuple(r.statuses), tmin=r.tmin, tmax=r.tmax, return_full_data=full)
+    extra = {}
+    if r.cfg.get('kwargs'):
+        extra = dict(spont_kwargs={'which': 'spont'}, nbr_kwargs={'which': 'nbr'})
+    return h.call_must_succeed('no-exception', f, r.G, r.H, r.J, r.IC, tuple(r.statuses), tmin=r.tmin, tmax=r.tmax, return_full_data=full, **extra)
 
 
 def rows_of(ret, statuses):
